@@ -236,51 +236,66 @@ theorem fmx_validatorDiag (v : Verdict) (yamlStart : Nat) (text : Str) (key : Y)
 section
 variable {α : Type} [Arith α]
 
-theorem fmx_stdEntry_diags (fe : Env α) (yamlStart : Nat) (text : Str) (acc : Acc) (key value : Y)
-    (h : ∀ d ∈ acc.diags, FmDiag yamlStart text d) :
-    ∀ d ∈ (stdEntry fe yamlStart text acc key value).diags, FmDiag yamlStart text d := by
-  unfold stdEntry
-  split
-  · exact h
-  · split
-    · exact h
-    · exact h
-    · intro d hd
-      simp only [List.mem_append, List.mem_singleton] at hd
-      rcases hd with hd | hd
-      · exact h d hd
-      · subst hd; exact ⟨rfl, Or.inr (Or.inl ⟨rfl, rfl⟩), fmx_keyLabels _ _ _⟩
-
-theorem fmx_entry_diags (fe : Env α) (yamlStart : Nat) (text : Str) (acc : Acc) (kv : Y × Y)
-    (h : ∀ d ∈ acc.diags, FmDiag yamlStart text d) :
-    ∀ d ∈ (entry fe yamlStart text acc kv).diags, FmDiag yamlStart text d := by
-  unfold entry
-  split
-  · exact fmx_stdEntry_diags fe yamlStart text _ _ _ h
-  · rename_i f _
-    have h1 : ∀ d ∈ acc.diags ++ validatorDiag (f acc.calls kv.1 kv.2) (keyLabels yamlStart text kv.1),
-        FmDiag yamlStart text d := by
-      intro d hd
-      rcases List.mem_append.mp hd with hd | hd
-      · exact h d hd
-      · exact fmx_validatorDiag _ _ _ _ d hd
-    simp only
-    split
-    · exact h1
-    · split
-      · exact h1
-      · exact fmx_stdEntry_diags fe yamlStart text _ _ _ h1
-
-theorem fmx_foldl_diags (fe : Env α) (yamlStart : Nat) (text : Str) (m : List (Y × Y)) (acc : Acc)
-    (h : ∀ d ∈ acc.diags, FmDiag yamlStart text d) :
-    ∀ d ∈ (m.foldl (entry fe yamlStart text) acc).diags, FmDiag yamlStart text d := by
+/-- an invariant of the diagnostics of the entry loop: it suffices to check the two diagnostics one
+    iteration can push -/
+theorem fmx_foldl_inv (fe : Env α) (yamlStart : Nat) (text : Str) (P : Diag → Prop)
+    (hv : ∀ (v : Verdict) (key : Y), ∀ d ∈ validatorDiag v (keyLabels yamlStart text key), P d)
+    (hs : ∀ key : Y, P ⟨.warning, .analysis, "std-unsupported-value", keyLabels yamlStart text key⟩)
+    (m : List (Y × Y)) (acc : Acc) (h : ∀ d ∈ acc.diags, P d) :
+    ∀ d ∈ (m.foldl (entry fe yamlStart text) acc).diags, P d := by
   induction m generalizing acc with
   | nil => exact h
-  | cons kv rest ih => exact ih _ (fmx_entry_diags fe yamlStart text acc kv h)
+  | cons kv rest ih =>
+    apply ih
+    have hstd : ∀ (a : Acc) (key value : Y), (∀ d ∈ a.diags, P d) →
+        ∀ d ∈ (stdEntry fe yamlStart text a key value).diags, P d := by
+      intro a key value ha
+      unfold stdEntry
+      split
+      · exact ha
+      · split
+        · exact ha
+        · exact ha
+        · intro d hd
+          simp only [List.mem_append, List.mem_singleton] at hd
+          rcases hd with hd | hd
+          · exact ha d hd
+          · subst hd; exact hs key
+    unfold entry
+    split
+    · exact hstd _ _ _ h
+    · rename_i f _
+      have h1 : ∀ d ∈ acc.diags ++ validatorDiag (f acc.calls kv.1 kv.2) (keyLabels yamlStart text kv.1), P d := by
+        intro d hd
+        rcases List.mem_append.mp hd with hd | hd
+        · exact h d hd
+        · exact hv _ _ d hd
+      simp only
+      split
+      · exact h1
+      · split
+        · exact h1
+        · exact hstd _ _ _ h1
 
 theorem fmx_entries_diags (fe : Env α) (yamlStart : Nat) (text : Str) (m : List (Y × Y)) :
     ∀ d ∈ (entries fe yamlStart text m).diags, FmDiag yamlStart text d :=
-  fmx_foldl_diags fe yamlStart text m {} (by intro d hd; simp at hd)
+  fmx_foldl_inv fe yamlStart text (FmDiag yamlStart text)
+    (fun v key => fmx_validatorDiag v yamlStart text key)
+    (fun key => ⟨rfl, Or.inr (Or.inl ⟨rfl, rfl⟩), fmx_keyLabels _ _ _⟩)
+    m {} (by intro d hd; simp at hd)
+
+/-- the entry loop never pushes the time warning -/
+theorem fmx_entries_kind (fe : Env α) (yamlStart : Nat) (text : Str) (m : List (Y × Y)) :
+    ∀ d ∈ (entries fe yamlStart text m).diags, d.kind = "metadata-validator" ∨ d.kind = "std-unsupported-value" :=
+  fmx_foldl_inv fe yamlStart text (fun d => d.kind = "metadata-validator" ∨ d.kind = "std-unsupported-value")
+    (fun v key d hd => by
+      unfold validatorDiag at hd
+      split at hd
+      · simp at hd
+      · simp only [List.mem_singleton] at hd; subst hd; exact Or.inl rfl
+      · simp only [List.mem_singleton] at hd; subst hd; exact Or.inl rfl)
+    (fun key => Or.inr rfl)
+    m {} (by intro d hd; simp at hd)
 
 end
 
@@ -319,6 +334,114 @@ theorem fmx_keyLabel_ok {input text : Str} {off : Nat} {l : Span} (hs : SliceAt 
   obtain ⟨key, p, hp, e⟩ := h
   rw [e]
   exact fmx_pos_ok hs (fmx_yamlFind_lineStart text key p hp).boundary
+
+/-! ### without a validator: one warning per rejected standard entry, nothing removed -/
+
+/-- what one entry contributes to the report when there is no validator: the warning of the C13
+    model (`SM.entryWarns`) with the key-line label -/
+def entryWarning {α : Type} [Arith α] (fe : Env α) (yamlStart : Nat) (text : Str) (kv : Y × Y) : List Diag :=
+  match SM.asStr kv.1 with
+  | some ks =>
+    if SM.entryWarns fe.conv fe.alpha ks kv.2 then
+      [⟨.warning, .analysis, "std-unsupported-value", keyLabels yamlStart text kv.1⟩]
+    else []
+  | none => []
+
+section
+variable {α : Type} [Arith α]
+
+theorem fmx_stdEntry_spec (fe : Env α) (yamlStart : Nat) (text : Str) (acc : Acc) (key value : Y) :
+    (stdEntry fe yamlStart text acc key value).diags = acc.diags ++ entryWarning fe yamlStart text (key, value) ∧
+    (stdEntry fe yamlStart text acc key value).kept = acc.kept := by
+  unfold stdEntry entryWarning SM.entryWarns
+  cases h1 : SM.asStr key with
+  | none => simp
+  | some ks =>
+    simp only [Option.bind_some]
+    cases h2 : SM.StdKey.fromStr ks with
+    | none => simp
+    | some sk =>
+      cases h3 : SM.checkStdEntry fe.conv fe.alpha sk value with
+      | none => simp [h3]
+      | some o => cases o <;> simp [h3]
+
+theorem fmx_foldl_noValidator (fe : Env α) (hv : fe.validator = none) (yamlStart : Nat) (text : Str)
+    (m : List (Y × Y)) (acc : Acc) :
+    (m.foldl (entry fe yamlStart text) acc).diags = acc.diags ++ m.flatMap (entryWarning fe yamlStart text) ∧
+    (m.foldl (entry fe yamlStart text) acc).kept = acc.kept ++ m := by
+  induction m generalizing acc with
+  | nil => simp
+  | cons kv rest ih =>
+    have e : entry fe yamlStart text acc kv =
+        stdEntry fe yamlStart text { acc with kept := acc.kept ++ [kv] } kv.1 kv.2 := by
+      unfold entry; rw [hv]
+    obtain ⟨s1, s2⟩ := fmx_stdEntry_spec fe yamlStart text { acc with kept := acc.kept ++ [kv] } kv.1 kv.2
+    obtain ⟨i1, i2⟩ := ih (entry fe yamlStart text acc kv)
+    simp only [List.foldl_cons, List.flatMap_cons]
+    rw [i1, i2, e, s1, s2]
+    simp
+
+/-- without a validator the loop keeps every entry and pushes exactly the C13 warnings, in mapping order -/
+theorem fmx_entries_noValidator (fe : Env α) (hv : fe.validator = none) (yamlStart : Nat) (text : Str)
+    (m : List (Y × Y)) :
+    (entries fe yamlStart text m).diags = m.flatMap (entryWarning fe yamlStart text) ∧
+    (entries fe yamlStart text m).kept = m := by
+  obtain ⟨a, b⟩ := fmx_foldl_noValidator fe hv yamlStart text m {}
+  exact ⟨by unfold entries; rw [a]; simp, by unfold entries; rw [b]; simp⟩
+
+end
+
+/-! ### the time warning -/
+
+theorem fmx_timeWarn_iff (yamlStart : Nat) (text : Str) (kept : List (Y × Y)) :
+    (∃ d ∈ timeWarn yamlStart text kept, d.kind = "time-overridden-fm") ↔
+    (hasKey kept .time = true ∧
+      ((timeLoc text kept .prepTime).isSome = true ∨ (timeLoc text kept .cookTime).isSome = true)) := by
+  unfold timeWarn
+  by_cases h1 : hasKey kept .time = true
+  · by_cases h2 : ((timeLoc text kept .prepTime).isSome || (timeLoc text kept .cookTime).isSome) = true
+    · simp only [h1, h2, if_true]
+      constructor
+      · intro _; exact ⟨trivial, by simpa using h2⟩
+      · intro _; exact ⟨_, List.mem_singleton.mpr rfl, rfl⟩
+    · simp only [h1, h2]
+      constructor
+      · rintro ⟨d, hd, _⟩; simp at hd
+      · rintro ⟨_, h⟩; exact absurd (by simpa using h) h2
+  · simp only [h1]
+    constructor
+    · rintro ⟨d, hd, _⟩; simp at hd
+    · rintro ⟨h, _⟩; cases h
+
+theorem fmx_timeWarn_length (yamlStart : Nat) (text : Str) (kept : List (Y × Y)) :
+    (timeWarn yamlStart text kept).length ≤ 1 := by
+  unfold timeWarn; split <;> (try split) <;> simp
+
+/-- "Time overriden" is pushed exactly when, after the removals, the mapping has the key `time` and
+    has `prep time` or `cook time` on a line `yaml_find_key_position` recognises -/
+theorem fmx_process_time_iff {α : Type} [Arith α] (fe : Env α) (yaml : Text) (m : List (Y × Y))
+    (hd : fe.decode yaml.text = .ok m) :
+    (∃ d ∈ (processFrontmatter fe yaml).diags, d.kind = "time-overridden-fm") ↔
+    (hasKey (entries fe yaml.span.start yaml.text m).kept .time = true ∧
+      ((timeLoc yaml.text (entries fe yaml.span.start yaml.text m).kept .prepTime).isSome = true ∨
+       (timeLoc yaml.text (entries fe yaml.span.start yaml.text m).kept .cookTime).isSome = true)) := by
+  rw [← fmx_timeWarn_iff yaml.span.start]
+  unfold processFrontmatter
+  rw [hd]
+  constructor
+  · rintro ⟨d, h, hk⟩
+    simp only [List.mem_append] at h
+    rcases h with h | h
+    · rcases fmx_entries_kind fe _ _ m d h with e | e <;> rw [e] at hk <;> exact absurd hk (by decide)
+    · exact ⟨d, h, hk⟩
+  · rintro ⟨d, h, hk⟩
+    exact ⟨d, List.mem_append.mpr (Or.inr h), hk⟩
+
+theorem fmx_process_err {α : Type} [Arith α] (fe : Env α) (yaml : Text) (loc : Option Nat)
+    (hd : fe.decode yaml.text = .err loc) :
+    processFrontmatter fe yaml =
+      ⟨none, none, [⟨.error, .analysis, "yaml-error", posLabel yaml.span.start loc⟩]⟩ := by
+  unfold processFrontmatter; rw [hd]
 
 end FM
 end Cook
